@@ -230,10 +230,18 @@ Example C07_refuted_root_unwrap_request :
   inh [fl_root] fl_root (YRef (s "RootList")) (JArr [JObj [(s "sym", JStr (s "x"))]]) = false /\
   inh [fl_root] fl_root (res_ty [fl_root] (s "p.RootList")) (JArr [JObj [(s "sym", JStr (s "x"))]]) = true.
 Proof. vm_compute. repeat split; reflexivity. Qed.
+(* only a SCALAR root list / map without elements is written as null; a message list gives [] *)
+Definition rootstrs := mkmsg (s "p.RootStrs") [s "RootStrs"]
+  [ {| f_name := s "items"; f_number := 1; f_kind := KString; f_card := Repeated; f_oneof := None; f_query := None;
+       f_unwrap := true; f_int64 := None; f_enumenc := None; f_nullable := None; f_empty := None; f_tsfmt := None;
+       f_bytesenc := None; f_oneof_value := None; f_flatten := None; f_flatten_prefix := None |} ] [].
+Definition fl_rootstrs := mk_echo rootstrs [] [].
 Example C07_refuted_root_unwrap_null :
-  defects_C07 [fl_root] fl_root resp (s "p.RootList") [] [] = [C07RootUnwrapNull] /\
-  inh [fl_root] fl_root (res_ty [fl_root] (s "p.RootList")) JNull = false.
-Proof. vm_compute. split; reflexivity. Qed.
+  defects_C07 [fl_rootstrs] fl_rootstrs resp (s "p.RootStrs") [] [] = [C07RootUnwrapNull] /\
+  inh [fl_rootstrs] fl_rootstrs (res_ty [fl_rootstrs] (s "p.RootStrs")) JNull = false /\
+  defects_C07 [fl_root] fl_root resp (s "p.RootList") [] [] = [] /\
+  inh [fl_root] fl_root (res_ty [fl_root] (s "p.RootList")) (JArr []) = true.
+Proof. vm_compute. repeat split; reflexivity. Qed.
 
 (* a 64-bit sibling of an unwrap map is written as a JSON number *)
 Definition barlist := mkmsg (s "p.BarList") [s "BarList"]
